@@ -104,7 +104,7 @@ class C17(Prop):
                     if i % nshards == shard:
                         yield {"nports": nports, "history": list(h), "exhaustive": True}
                     i += 1
-        n_rand = {"quick": 3_200, "thorough": 40_000}[tier]
+        n_rand = {"quick": 3_200, "thorough": 300_000}[tier]
         for j in range(n_rand):
             if i % nshards == shard:
                 r = env.rng("C17", seed, j)
